@@ -86,6 +86,7 @@ void workerMain(int k, int nworkers, long start, const std::vector<std::string>&
 		setTimer(tmo);
 		try
 		{
+			ResetCaseFlags();
 			auto it = OpRegistry().find(c.at("op").get<std::string>());
 			if (it == OpRegistry().end()) { throw std::runtime_error("vdrive: unknown op"); }
 			SetStage("op");
